@@ -40,7 +40,14 @@ _IR_TEXT_FULL["xdsl.ir.core"] = {"shims": ("re", "io"), "methods": _STR_METHODS}
 _C07_FULL = {m: dict(o, methods=tuple(o.get("methods", ())) + ("get",), calls=tuple(o.get("calls", ())) + ("set",)) for m, o in _IR_TEXT_FULL.items()}
 _C07_FULL["xdsl.context"] = {"shims": (), "methods": ("get",)}
 
+_C05_FULL = dict(_IR_TEXT_FULL)
+_C05_FULL.update({m: dict(_PARSE_OPTS) for m in ("xdsl.irdl.declarative_assembly_format", "xdsl.dialects.arith", "xdsl.dialects.cf", "xdsl.dialects.func", "xdsl.dialects.memref", "xdsl.dialects.scf",
+                                                  "xdsl.dialects.utils.format", "xdsl.dialects.utils.fast_math", "xdsl.utils.bitwise_casts", "xdsl.dialects.utils.dynamic_index_list", "xdsl.dialects.utils.bit_enum_attribute")})
+
+_C05_FULL["xdsl.traits"] = {"shims": (), "calls": ("set", "dict"), "methods": ("get",)}
+
 CHECKS = {
+    "C05": {"module": "vx.checks.c05", "instrument": {"full": _C05_FULL}, "maxtasksperchild": 10},
     "C29": {"module": "vx.checks.c29", "instrument": {"full": {"xdsl.utils.symbol_table": {"shims": (), "methods": ("get", "pop"), "calls": ("dict",), "dictdisplay": True}}}, "maxtasksperchild": 20},
     "C07": {"module": "vx.checks.c07", "instrument": {"full": _C07_FULL}, "maxtasksperchild": 40},
     "C04": {"module": "vx.checks.c04", "instrument": {"full": _IR_TEXT_FULL}, "maxtasksperchild": 10},
